@@ -45,7 +45,16 @@ Proof.
       apply andb_prop in H3 as [H3 H4]. apply andb_prop in H3 as [H5 H6].
       repeat split; auto. apply stored_okb_sound; auto. apply IH; auto.
   - (* Call *) destruct (nth_error asm f); auto. apply stored_okb_sound; auto.
-  - (* Switch *) discriminate.
+  - (* Switch *)
+    apply andb_prop in Hb as [Hb H3]. apply andb_prop in Hb as [H1 H2].
+    apply Nat.eqb_eq in H1, H2. repeat split; auto.
+    induction H as [|a t Ha Ht IH]; simpl in *; auto.
+    apply andb_prop in H3 as [H3 H4].
+    repeat (apply andb_prop in H3; destruct H3 as [H3 ?]).
+    repeat match goal with
+           | H : Nat.eqb _ _ = true |- _ => apply Nat.eqb_eq in H
+           | H : (_ <=? _) = true |- _ => apply Nat.leb_le in H end.
+    split; [repeat split; auto; apply stored_okb_sound; auto | apply IH; auto].
   - (* CustomInv *)
     apply andb_prop in Hb as [Hb H3]. apply andb_prop in Hb as [H1 H2].
     repeat split; auto. apply stored_okb_sound; auto.
